@@ -88,6 +88,11 @@ def check(run, prog, tier):
     run.rule("C08-F", "the stored evolution superoperator transforms covariantly into a basis context (TA; same "
                       "identity as C04-B4, on the transform method EvolutionSuperOperator resolves to)", minimum=4)
     rule_F(run, prog, cls)
+    run.rule("C08-G", "direct propagation with pure dephasing derives its per-step factors from the step in force "
+                      "(so that U applied to a state can reproduce it for every refinement)", minimum=2)
+    from .. import fresh
+    pc = prog.cls("quantarhei.qm.propagators.rdmpropagator.ReducedDensityMatrixPropagator")
+    fresh.check(run, "C08-G", prog, pc, "_BOOT_DEPH", "pure dephasing in direct propagation")
 
 
 def rule_A(run, prog, cls):
